@@ -6,6 +6,7 @@ REGISTRY = {
     'C05': ['thread_pool', 'strand', 'core'],
     'C07': ['strand'],
     'C08': ['thread_pool'],
+    'C09': ['when'],
     'C10': ['any'],
     'C12': ['core', 'handles'],
     'C16': ['event', 'base_core'],
@@ -80,6 +81,18 @@ CLAIMS = {
         'note': 'std::mutex/condition_variable/thread trusted; Wait()=join not under contract; single-worker FIFO is the List FIFO, checked '
                 'bounded on real memory (N<=6/10). Assumes fewer than 2^61 jobs counted at once.',
         'design': 'DESIGN.md 6 C08, 5.C, A.6',
+    },
+    'C09': {
+        'text': 'Strategies and combinator machinery under contract: FirstFail Consume of Join / All / AllTuple (R/G on _done with ghost election: the '
+                'first failure is Set once with its own error / exception, values and later failures have no effect, tuple slot i is filled from input i), '
+                'all destructors (output completed exactly once overall; All: loops over a symbolic number of inputs closed by invariants - every input '
+                'retired or released exactly once in index order, aggregate element k from input k, one reserve), Register, the Consume / ConsumeImpl '
+                'dispatch for every ConsumePolicy x CorePolicy, CombinatorCallback::Impl (consume under own index, then drop one combinator reference), '
+                'the dynamic registration loops of DynamicCombinator / SingleCombinator (unbounded count), when::When (empty input => invalid future, '
+                'no allocation; else two allocations and one reference per input).',
+        'note': 'Pack expansion of the static form is assumed to call SetCore<i> once per i; std::vector is a stub; inputs complete exactly once (C01) and '
+                'their Results are not Empty; SC atomics. Replay: sequential witnesses on the real library.',
+        'design': 'DESIGN.md 6 C09, 5.B, 5.E',
     },
     'C10': {
         'text': 'Rely/guarantee contracts on the three per-policy state words of when::Any (None: _done flag; FirstFail: empty/error/value; '
